@@ -3,6 +3,7 @@
 -/
 import PrologVerif.Proofs.OpRoundtripParse6
 import PrologVerif.Proofs.OpRoundtripLex
+import PrologVerif.Proofs.FloatSign
 import PrologVerif.Proofs.Ops
 import PrologVerif.Driver.C06
 set_option linter.unusedSimpArgs false
@@ -55,18 +56,19 @@ def lexOK (e : Env) (G : UInt64 → GText) (ops : Table) (t : Term) : Bool :=
     qt e G t (qopts ops) ++ [⟨.end_, ['.']⟩])
 
 /-- the reader half of P2: if the text lexes to the tokens `qt`, `read_term` returns the term -/
-theorem readTerm_writeq_of_lexOK (e : Env) (G : UInt64 → GText) (P : UInt64 → Bool) (he : EnvOK e G P) (hs : SignOK G P)
+theorem readTerm_writeq_of_lexOK (e : Env) (G : UInt64 → GText) (P : UInt64 → Bool) (he : EnvOK e G P)
     (ops : Table) (hops : tableOK ops = true) (dq : DoubleQuotes) (t : Term) (hw : wfTerm t = true)
     (hn : numsOK P t = true) (hlex : lexOK e G ops t = true) :
     readTerm e.cfg ops dq (writeq e ops t ++ [' ', '.']) = .ok t.canon :=
-  readTerm_of_tokens e G P ops dq he hs hops t hw hn _ (by simpa [lexOK] using hlex)
+  readTerm_of_tokens e G P ops dq he (signOK_of_envOK he) hops t hw hn _ (by simpa [lexOK] using hlex)
 
 /-- P2: `writeq(T)` followed by ` .` is read back as `T` -/
-theorem readTerm_writeq (e : Env) (G : UInt64 → GText) (P : UInt64 → Bool) (he : EnvOK e G P) (hs : SignOK G P)
+theorem readTerm_writeq (e : Env) (G : UInt64 → GText) (P : UInt64 → Bool) (he : EnvOK e G P)
     (hcap : CapOK e.cfg) (ops : Table) (hops : tableOK ops = true) (dq : DoubleQuotes) (t : Term)
     (hw : wfTerm t = true) (hn : numsOK P t = true) (hv : noVAR t = true) :
     readTerm e.cfg ops dq (writeq e ops t ++ [' ', '.']) = .ok t.canon :=
-  readTerm_of_lexSeq e G P ops dq he hs hops t hw hn _ (lexSeq_writeq e G P he hs hcap ops hops t hw hn hv)
+  readTerm_of_lexSeq e G P ops dq he (signOK_of_envOK he) hops t hw hn _
+    (lexSeq_writeq e G P he (signOK_of_envOK he) hcap ops hops t hw hn hv)
 
 /-! ## the hypothesis on the character-class oracle -/
 
